@@ -18,7 +18,7 @@ DOMAINS = {
     "p04": {"letter": "P", "header_tokens": 4}, "roundtrip": {"letter": "Y", "header_tokens": 9}, "p17": {"letter": "P", "header_tokens": 4},
     "errstr": {"letter": "E", "header_tokens": 5}, "buffmt": {"letter": "F", "header_tokens": 9}, "expr": {"letter": "X", "header_tokens": 4},
     "p06": {"letter": "P", "header_tokens": 4}, "p08": {"letter": "P8", "header_tokens": 4}, "p09": {"letter": "P9", "header_tokens": 4}, "p09u": {"letter": "PU", "header_tokens": 4},
-    "p21": {"letter": "P", "header_tokens": 4},
+    "p21": {"letter": "P", "header_tokens": 4}, "pline": {"letter": "P", "header_tokens": 4},
 }
 
 PROPS = {
@@ -145,6 +145,8 @@ PROPS["C07"] = {"module": "ScpiVerif.Props.C07", "domains": [{"name": "roundtrip
     "assumptions": ["writer side from C14 / C17 / C18, lexer side from C13, reader side from the context model"],
     "rule": "cases = a result script and the response it produced re-submitted as the parameter of the matching reader: all 2^8 and 2^16 values, boundary and random 32/64-bit values in bases 2, 8, 10, 16, strings over an alphabet with both quotes, blocks of 0..1100 random bytes, random and boundary floats / doubles; non-trivial = every case"}
 PROPS["C01"] = _pprop("ScpiVerif.Props.C01", [{"name": "p01", "cfgs": ["A", "B", "C", "D"], "keep": "P,R,M,X,A,Y"}, {"name": "lexer", "cfgs": ["A"]},
+    # complete NUL-terminated lines handed straight to SCPI_Parse (second sentence of the property)
+    {"name": "pline", "cfgs": ["A", "B", "C", "D"], "keep": "P,R,M,X,A,Y,T"},
     # the domains of the formatting / queue / heap / expression properties, for memory safety only: sanitizer faults and the
     # 'wrote outside the buffer' clauses count for C01, model differences and the other clauses are their own property's business
     {"name": "buffmt", "cfgs": ["A", "D"], "faults_only": True}, {"name": "intfmt", "cfgs": ["A"], "faults_only": True},
@@ -152,7 +154,7 @@ PROPS["C01"] = _pprop("ScpiVerif.Props.C01", [{"name": "p01", "cfgs": ["A", "B",
     {"name": "heap", "cfgs": ["B"], "faults_only": True}, {"name": "queue", "cfgs": ["A", "C"], "faults_only": True},
     {"name": "match", "cfgs": ["A"], "faults_only": True}],
     ["C01.", "C15.write_beyond_buffer", "C14.write_beyond_buffer", "C15.nul_terminator", "C14.nul_terminator"],
-    "mutated messages (byte flips, deletions, insertions, syntax characters, truncation), input buffers of 2..200 bytes, queue capacities 1..4, random segmentation with over-long chunks and zero-length calls, in all four build configurations under ASan+UBSan with the buffer-tail poisoning hook")
+    "mutated messages (byte flips, deletions, insertions, syntax characters, truncation), input buffers of 2..200 bytes, queue capacities 1..4, random segmentation with over-long chunks and zero-length calls, and sequences of NUL-terminated lines (well-formed, mutated, binary noise) handed straight to SCPI_Parse in exact-size objects, in all four build configurations under ASan+UBSan with the buffer-tail poisoning hook")
 
 NOT_CLAIMED = {}
 
@@ -202,7 +204,7 @@ _T["C05"] = ("Theorems: missing_parameter (-109 for a mandatory, silence and abs
 _T["C09"] = ("Theorems input_noninterference / stream_noninterference: two contexts that agree on what is meant to persist (command table, buffer size and pending input bytes, status registers, error queue as an abstract FIFO) and differ arbitrarily in everything else (output_count, first_output, arbitrary_remaining, cmd_error, input_count, parameter cursor, matched entry, cmd_raw, stale buffer bytes, ring positions, history) produce identical observations (handler invocations, parameters, errors, output bytes, flushes, return values) on ANY stream of chunks and remain related; unit_reset: processCommand overwrites the per-unit fields before use.",
             "Lean kernel + standard axioms; context model tied to parser.c by scripted differential testing, including the experiment 'B after A versus B on a fresh context given A's registers and queue'",
             "Lean 4 non-interference proof (simulation relation over the whole context model) + differential correspondence")
-_T["C01"] = ("PARTIAL BY NATURE. Theorems (Props/C01.lean): every recogniser keeps its cursor and token extent inside its input (from the C13 theorems, block recogniser included); the unit detector always makes progress and never leaves its input, so the unit loop of SCPI_Parse and the scan loop of SCPI_Input terminate; SCPI_Parse never exhausts its step budget, never composes a header before the start of the buffer and modifies no byte outside the message; SCPI_Input keeps position < buffer length for every chunk history; an over-long chunk copies nothing; SCPI_ParamCopyText and the array readers never store beyond the caller's capacity. These are statements about the algorithm as modelled: a C-level out-of-bounds read caused by a broken check-then-read pair, signed overflow or libc reading past a token cannot be exhibited by the model; for those the evidence is testing: every correspondence domain runs under ASan+UBSan with exact-size heap objects, canaries, a watchdog and the guarded buffer-tail poisoning hook, in four build configurations.",
+_T["C01"] = ("PARTIAL BY NATURE. Theorems (Props/C01.lean): every recogniser keeps its cursor and token extent inside its input (from the C13 theorems, block recogniser included); the unit detector always makes progress and never leaves its input, so the unit loop of SCPI_Parse and the scan loop of SCPI_Input terminate; SCPI_Parse never exhausts its step budget, never composes a header before the start of the buffer and modifies no byte outside the message, also when a complete NUL-terminated line in an object of its own is handed straight to it (parse_line_inside: object size kept, terminating NUL untouched, input buffer of the context untouched); SCPI_Input keeps position < buffer length for every chunk history; an over-long chunk copies nothing; SCPI_ParamCopyText and the array readers never store beyond the caller's capacity. These are statements about the algorithm as modelled: a C-level out-of-bounds read caused by a broken check-then-read pair, signed overflow or libc reading past a token cannot be exhibited by the model; for those the evidence is testing: every correspondence domain runs under ASan+UBSan with exact-size heap objects, canaries, a watchdog and the guarded buffer-tail poisoning hook, in four build configurations.",
             "Lean kernel + standard axioms for the bounds/termination theorems; memory safety and undefined arithmetic of the C code itself are observed by sanitizers under the generators (testing)",
             "Lean 4 bounds and termination theorems over the model + sanitizer-instrumented differential correspondence")
 _T["C15"] = ("Theorems doubleToStr_bounded / dtostreCopy_bounded / numberToStr_bounded: for every buffer length (0 and 1 included), every NUL-free text the number formatter can hand over, every unit of the generated table and every special-number tag, the model of SCPI_FloatToStr / SCPI_DoubleToStr, the final copy of SCPI_dtostre and SCPI_NumberToStr (snprintf, strncpy, strncat by their C specifications, with the repaired bounds) writes only inside the caller's buffer, leaves it NUL-terminated whenever its length is at least 1, and returns the length of the stored text; table_names_are_c_strings for the generated unit / special-number tables. SCPI_ParamCopyText is covered by C05/C01 theorems (copy bounded by the capacity).",
@@ -231,11 +233,11 @@ for _k in ():  # unclaimed
 # domain p21 are part of the checks of the properties they speak about
 _INSTR = "ScpiVerif.Props.Instrument"
 PROPS["C11"]["extra"] = [(_INSTR, ["status_invariant", "coherent_reachable_messages", "builtin_preserves_status", "stb_query"])]
-PROPS["C11"]["domains"] = PROPS["C11"]["domains"] + [{"name": "p21", "cfgs": ["A"], "keep": "P,H,S,Q"}]
+PROPS["C11"]["domains"] = PROPS["C11"]["domains"] + [{"name": "p21", "cfgs": ["A"], "keep": "P,H,Q,g"}]
 PROPS["C12"]["extra"] = [(_INSTR, ["cls_message", "esr_query_clears", "oper_event_query_clears", "ques_event_query_clears", "opc_sets_bit0",
                                    "enable_roundtrip", "ese_roundtrip", "sre_roundtrip", "ques_enab_roundtrip", "oper_enab_roundtrip",
                                    "enable_out_of_range", "enable_missing_parameter"])]
-PROPS["C12"]["domains"] = PROPS["C12"]["domains"] + [{"name": "p21", "cfgs": ["A"], "keep": "P,H,S,Q,E,Z"}]
+PROPS["C12"]["domains"] = PROPS["C12"]["domains"] + [{"name": "p21", "cfgs": ["A"], "keep": "P,H,S,Q,E,Z,s,g"}]
 PROPS["C18"]["extra"] = [(_INSTR, ["syst_err_next", "syst_err_next_empty", "syst_err_count"])]
 PROPS["C18"]["domains"] = PROPS["C18"]["domains"] + [{"name": "p21", "cfgs": ["A"], "keep": "P,H,W"}]
 PROPS["C06"]["extra"] = [(_INSTR, ["idn_fields", "opcq_answers_1", "tst_answers_0"])]
